@@ -104,3 +104,104 @@ def run (s : Sys) : List Op → Except Panic (Sys × List Obs)
       | .ok (s2, os) => .ok (s2, o :: os)
 
 end Aldrin.ClientChan
+
+/-! ### the same three parties with messages in flight
+
+Between the sender's client and the broker, the broker and the receiver's client, and back, messages wait in FIFO
+queues (the transports and the clients' internal queues); in which order the four queues move is up to the schedule. -/
+namespace Aldrin.ClientChan
+open Aldrin.Broker Generated
+
+structure ASys where
+  snd : Sender
+  chan : Chan
+  rcv : Receiver
+  /-- `SendItem` messages on their way to the broker -/
+  sb : Nat := 0
+  /-- `ItemReceived` messages on their way into the receiver's queue -/
+  br : Nat := 0
+  /-- `AddChannelCapacity` messages of the receiver on their way to the broker, oldest first -/
+  rb : List Nat := []
+  /-- `AddChannelCapacity` messages of the broker on their way into the sender's queue, oldest first -/
+  bs : List Nat := []
+  deriving Repr, DecidableEq, Inhabited
+
+def ASys.ofSys (s : Sys) : ASys := { snd := s.snd, chan := s.chan, rcv := s.rcv }
+
+inductive AOp where
+  | app (op : Op)
+  /-- the broker handles the oldest `SendItem` -/
+  | brokerItem
+  /-- the broker handles the oldest `AddChannelCapacity` -/
+  | brokerGrant
+  /-- the receiver's client puts the oldest `ItemReceived` into the receiver's queue -/
+  | deliverItem
+  /-- the sender's client puts the oldest announcement into the sender's queue -/
+  | deliverAnn
+  deriving Repr, DecidableEq, Inhabited
+
+inductive AObs where
+  | app (o : Obs)
+  | moved
+  /-- the queue this step takes from is empty -/
+  | idle
+  /-- the broker refused an item or a grant -/
+  | cutOff
+  deriving Repr, DecidableEq, Inhabited
+
+def astep (s : ASys) : AOp → Except Panic (ASys × AObs)
+  | .app .ready =>
+    let snd := s.snd.drain
+    .ok ({ s with snd := snd }, .app (if snd.capacity > 0 then .isReady else .blocked))
+  | .app .pollClosed => .ok ({ s with snd := s.snd.drain }, .app .pending)
+  | .app .send =>
+    let snd := s.snd.drain
+    if snd.capacity = 0 then .ok ({ s with snd := snd }, .app .blocked) else
+    .ok ({ s with snd := { snd with capacity := snd.capacity - 1 }, sb := s.sb + 1 }, .app .sent)
+  | .app .take =>
+    if s.rcv.cur = 0 then .error (.debugAssert "poll_next_serialized: cur_capacity > 0") else
+    if s.rcv.cur > s.rcv.max then .error (.debugAssert "poll_next_serialized: cur_capacity <= max_capacity") else
+    if s.rcv.items = 0 then .ok (s, .app .empty) else
+    let cur := s.rcv.cur - 1
+    if cur ≤ clientLowCapacity then
+      let diff := s.rcv.max - cur
+      if diff < 1 then .error (.debugAssert "poll_next_serialized: diff >= 1") else
+      let cur := cur + diff
+      if cur = 0 ∨ cur > s.rcv.max then .error (.debugAssert "poll_next_serialized: capacity after the item") else
+      .ok ({ s with rcv := { s.rcv with cur := cur, items := s.rcv.items - 1 }, rb := s.rb ++ [diff] }, .app .item)
+    else
+      if cur = 0 ∨ cur > s.rcv.max then .error (.debugAssert "poll_next_serialized: capacity after the item") else
+      .ok ({ s with rcv := { s.rcv with cur := cur, items := s.rcv.items - 1 } }, .app .item)
+  | .brokerItem =>
+    if s.sb = 0 then .ok (s, .idle) else
+    match s.chan.sendItem sid with
+    | .error p => .error p
+    | .ok (.error _) => .ok ({ s with sb := s.sb - 1 }, .cutOff)
+    | .ok (.ok (c, _, add)) => .ok ({ s with chan := c, sb := s.sb - 1, br := s.br + 1, bs := s.bs ++ add.toList }, .moved)
+  | .brokerGrant =>
+    match s.rb with
+    | [] => .ok (s, .idle)
+    | g :: rest =>
+      match s.chan.addCapacity rid g with
+      | .error p => .error p
+      | .ok none => .ok ({ s with rb := rest }, .cutOff)
+      | .ok (some (c, fwd)) => .ok ({ s with chan := c, rb := rest, bs := s.bs ++ (fwd.map (·.2)).toList }, .moved)
+  | .deliverItem =>
+    if s.br = 0 then .ok (s, .idle) else
+    .ok ({ s with br := s.br - 1, rcv := { s.rcv with items := s.rcv.items + 1 } }, .moved)
+  | .deliverAnn =>
+    match s.bs with
+    | [] => .ok (s, .idle)
+    | a :: rest => .ok ({ s with bs := rest, snd := { s.snd with queue := s.snd.queue ++ [a] } }, .moved)
+
+def arun (s : ASys) : List AOp → Except Panic (ASys × List AObs)
+  | [] => .ok (s, [])
+  | op :: ops =>
+    match astep s op with
+    | .error p => .error p
+    | .ok (s1, o) =>
+      match arun s1 ops with
+      | .error p => .error p
+      | .ok (s2, os) => .ok (s2, o :: os)
+
+end Aldrin.ClientChan
